@@ -20,8 +20,7 @@ use crate::glob_match::unescape_pattern;
 #[path = "__verif_stubs.rs"]
 mod stubs;
 
-const PLEN: usize = 5;
-const NLEN: usize = 5;
+const PLEN: usize = 6;
 
 fn is_meta(c: u8) -> bool {
     c == b'*' || c == b'?' || c == b'[' || c == b']'
@@ -59,20 +58,12 @@ fn spec_scan(p: &[u8]) -> (bool, bool, [u8; PLEN], usize) {
     (meta, esc, out, n)
 }
 
-fn any_pattern(buf: &mut [u8; PLEN]) -> &[u8] {
-    *buf = kani::any();
-    let len: usize = kani::any();
-    kani::assume(len <= PLEN);
-    &buf[..len]
-}
+// All obligations below use CONCRETE pattern / name lengths (one obligation per length): a slice
+// of symbolic length through memchr / Cow / slice comparison did not finish under CBMC in 15 min
+// (measured), concrete lengths take seconds to a few minutes.
 
 // (a) classification
-#[kani::proof]
-#[kani::unwind(8)]
-#[kani::stub(std::arch::x86_64::__cpuid_count, stubs::verif_cpuid_stub)]
-fn c15_analyze_classifies_exactly_by_unescaped_metacharacters() {
-    let mut buf = [0u8; PLEN];
-    let p = any_pattern(&mut buf);
+fn classify(p: &[u8]) {
     let (meta, esc, _, _) = spec_scan(p);
     let t = analyze_glob_pattern(p);
     if meta {
@@ -94,11 +85,7 @@ fn c15_analyze_classifies_exactly_by_unescaped_metacharacters() {
 }
 
 // (a') unescaping
-#[kani::proof]
-#[kani::unwind(8)]
-fn c15_unescape_removes_exactly_the_escaping_backslashes() {
-    let mut buf = [0u8; PLEN];
-    let p = any_pattern(&mut buf);
+fn unescape(p: &[u8]) {
     let (_, _, want, n) = spec_scan(p);
     let got = unescape_pattern(p);
     assert!(got.len() == n, "unescaped length differs");
@@ -108,19 +95,9 @@ fn c15_unescape_removes_exactly_the_escaping_backslashes() {
 }
 
 // (b) rules built from patterns without unescaped metacharacters match exactly as fnmatch does
-#[kani::proof]
-#[kani::unwind(10)]
-#[kani::stub(std::arch::x86_64::__cpuid_count, stubs::verif_cpuid_stub)]
-#[kani::stub(alloc::fmt::format, stubs::verif_format_stub)]
-fn c15_literal_rules_match_exactly_as_fnmatch() {
-    let mut buf = [0u8; PLEN];
-    let p = any_pattern(&mut buf);
+fn literal_rule(p: &'static [u8], name: &[u8]) {
     let (meta, _, want, n) = spec_scan(p);
     kani::assume(!meta);
-    let nbuf: [u8; NLEN] = kani::any();
-    let nlen: usize = kani::any();
-    kani::assume(nlen <= NLEN);
-    let name = &nbuf[..nlen];
     let rule = match SectionRule::new(p, None, SectionRuleOutcome::Discard) {
         Ok(r) => r,
         Err(e) => {
@@ -131,10 +108,10 @@ fn c15_literal_rules_match_exactly_as_fnmatch() {
     };
     assert!(matches!(rule.name_matcher, SectionNameMatcher::Exact(_)), "literal pattern not compiled to an exact matcher");
     // fnmatch(p, name, 0) for a metacharacter-free p: name equals the unescaped pattern
-    let mut equal = nlen == n;
+    let mut equal = name.len() == n;
     let mut i = 0;
-    while i < NLEN {
-        if i < n && i < nlen && want[i] != name[i] {
+    while i < name.len() {
+        if i < n && want[i] != name[i] {
             equal = false;
         }
         i += 1;
@@ -146,37 +123,60 @@ fn c15_literal_rules_match_exactly_as_fnmatch() {
     let j: usize = kani::any();
     kani::assume(j < n);
     assert!(pb[j] == want[j]);
-    core::mem::forget(rule);
-}
-
-// (c) key lemma for the prefix-hash table, exact rules: a name the rule matches probes the same
-// 4-byte key the rule was inserted under -- provided the rule has a 4-byte key at all.
-#[kani::proof]
-#[kani::unwind(10)]
-#[kani::stub(std::arch::x86_64::__cpuid_count, stubs::verif_cpuid_stub)]
-#[kani::stub(alloc::fmt::format, stubs::verif_format_stub)]
-fn c15_rules_with_four_literal_bytes_are_reachable_by_lookup_probe() {
-    let mut buf = [0u8; PLEN];
-    let p = any_pattern(&mut buf);
-    let (meta, _, want, n) = spec_scan(p);
-    kani::assume(!meta);
-    // known finding C15-short-pattern: complement of its input class
-    kani::assume(n >= 4);
-    let Ok(rule) = SectionRule::new(p, None, SectionRuleOutcome::Discard) else { return };
-    let key = rule.name_matcher.prefix_bytes();
-    assert!(key.len() >= 4, "from_rules' expect would panic for this rule");
-    assert!(section_name_prefix_hash(key).is_some());
-    // any name the rule matches has the same first four bytes, hence the same probe hash
-    let nbuf: [u8; NLEN] = kani::any();
-    let nlen: usize = kani::any();
-    kani::assume(nlen <= NLEN);
-    let name = &nbuf[..nlen];
-    if rule.matches(name, None) {
-        assert!(nlen >= 4 && name[0] == key[0] && name[1] == key[1] && name[2] == key[2] && name[3] == key[3],
-            "a matching name probes a different hash bucket than the rule was inserted under");
+    // (c) key lemma: with a 4-byte key, every matching name probes the same key
+    if n >= 4 {
+        assert!(section_name_prefix_hash(pb).is_some(), "from_rules' expect would panic for this rule");
+        if rule.matches(name, None) {
+            assert!(name.len() >= 4 && name[0] == pb[0] && name[1] == pb[1] && name[2] == pb[2] && name[3] == pb[3],
+                "a matching name probes a different hash bucket than the rule was inserted under");
+        }
     }
     core::mem::forget(rule);
 }
+
+macro_rules! c15_len_harnesses {
+    ($classify:ident, $unescape:ident, $plen:expr) => {
+        #[kani::proof]
+        #[kani::unwind(8)]
+        #[kani::stub(std::arch::x86_64::__cpuid_count, stubs::verif_cpuid_stub)]
+        fn $classify() {
+            let p: [u8; $plen] = kani::any();
+            classify(&p[..]);
+        }
+        #[kani::proof]
+        #[kani::unwind(8)]
+        fn $unescape() {
+            let p: [u8; $plen] = kani::any();
+            unescape(&p[..]);
+        }
+    };
+}
+c15_len_harnesses!(c15_analyze_classifies_patterns_of_2_bytes, c15_unescape_patterns_of_2_bytes, 2);
+c15_len_harnesses!(c15_analyze_classifies_patterns_of_4_bytes, c15_unescape_patterns_of_4_bytes, 4);
+c15_len_harnesses!(c15_analyze_classifies_patterns_of_5_bytes, c15_unescape_patterns_of_5_bytes, 5);
+
+macro_rules! c15_literal_harness {
+    ($name:ident, $plen:expr, $nlen:expr) => {
+        #[kani::proof]
+        #[kani::unwind(10)]
+        #[kani::stub(std::arch::x86_64::__cpuid_count, stubs::verif_cpuid_stub)]
+        #[kani::stub(alloc::fmt::format, stubs::verif_format_stub)]
+        fn $name() {
+            let p: &'static [u8; $plen] = Box::leak(Box::new(kani::any()));
+            let name: [u8; $nlen] = kani::any();
+            if $plen < 4 {
+                // known finding C15-short-pattern: complement of its input class
+                let (_, _, _, n) = spec_scan(&p[..]);
+                kani::assume(n >= 4);
+            }
+            literal_rule(&p[..], &name[..]);
+        }
+    };
+}
+c15_literal_harness!(c15_literal_rule_4_byte_pattern_4_byte_name, 4, 4);
+c15_literal_harness!(c15_literal_rule_5_byte_pattern_4_byte_name, 5, 4);
+c15_literal_harness!(c15_literal_rule_5_byte_pattern_5_byte_name, 5, 5);
+c15_literal_harness!(c15_literal_rule_4_byte_pattern_5_byte_name, 4, 5);
 
 // twin restricted to the known finding's input class: patterns shorter than 4 bytes after
 // unescaping have no hash key -> from_rules panics (`expect`), the rule can never be used.
@@ -185,45 +185,46 @@ fn c15_rules_with_four_literal_bytes_are_reachable_by_lookup_probe() {
 #[kani::stub(std::arch::x86_64::__cpuid_count, stubs::verif_cpuid_stub)]
 #[kani::stub(alloc::fmt::format, stubs::verif_format_stub)]
 fn c15_kf_short_patterns_have_a_hash_key() {
-    let mut buf = [0u8; PLEN];
-    let p = any_pattern(&mut buf);
-    let (meta, _, _, n) = spec_scan(p);
-    kani::assume(!meta && n < 4 && n >= 1);
-    let Ok(rule) = SectionRule::new(p, None, SectionRuleOutcome::Discard) else { return };
+    let p: &'static [u8; 3] = Box::leak(Box::new(kani::any()));
+    let (meta, _, _, _) = spec_scan(&p[..]);
+    kani::assume(!meta);
+    let Ok(rule) = SectionRule::new(&p[..], None, SectionRuleOutcome::Discard) else { return };
     let ok = section_name_prefix_hash(rule.name_matcher.prefix_bytes()).is_some();
     core::mem::forget(rule);
     assert!(ok, "pattern shorter than 4 bytes: SectionRules::from_rules panics (Prefixes of length less than 4 not yet supported)");
 }
 
 // section_name_prefix_hash: defined exactly for names of >= 4 bytes and depends only on them
-#[kani::proof]
-#[kani::unwind(10)]
-fn c15_prefix_hash_depends_exactly_on_the_first_four_bytes() {
-    let a: [u8; NLEN] = kani::any();
-    let b: [u8; NLEN] = kani::any();
-    let la: usize = kani::any();
-    let lb: usize = kani::any();
-    kani::assume(la <= NLEN && lb <= NLEN);
-    let ha = section_name_prefix_hash(&a[..la]);
-    let hb = section_name_prefix_hash(&b[..lb]);
-    assert!(ha.is_some() == (la >= 4));
-    if la >= 4 && lb >= 4 && a[0] == b[0] && a[1] == b[1] && a[2] == b[2] && a[3] == b[3] {
-        assert!(ha == hb, "names with equal 4-byte prefixes hash differently");
-    }
+macro_rules! c15_hash_harness {
+    ($name:ident, $la:expr, $lb:expr) => {
+        #[kani::proof]
+        #[kani::unwind(10)]
+        fn $name() {
+            let a: [u8; $la] = kani::any();
+            let b: [u8; $lb] = kani::any();
+            let ha = section_name_prefix_hash(&a[..]);
+            let hb = section_name_prefix_hash(&b[..]);
+            assert!(ha.is_some() == ($la >= 4) && hb.is_some() == ($lb >= 4));
+            if $la >= 4 && $lb >= 4 && a[0] == b[0] && a[1] == b[1] && a[2] == b[2] && a[3] == b[3] {
+                assert!(ha == hb, "names with equal 4-byte prefixes hash differently");
+            }
+        }
+    };
 }
+c15_hash_harness!(c15_prefix_hash_names_of_3_and_4_bytes, 3, 4);
+c15_hash_harness!(c15_prefix_hash_names_of_4_and_6_bytes, 4, 6);
 
 #[kani::proof]
 #[kani::unwind(10)]
 #[kani::stub(std::arch::x86_64::__cpuid_count, stubs::verif_cpuid_stub)]
 #[kani::stub(alloc::fmt::format, stubs::verif_format_stub)]
 fn c15_canary_exact_rule_matches_something() {
-    let mut buf = [0u8; PLEN];
-    let p = any_pattern(&mut buf);
-    let (meta, esc, _, n) = spec_scan(p);
+    let p: &'static [u8; 5] = Box::leak(Box::new(kani::any()));
+    let (meta, esc, _, n) = spec_scan(&p[..]);
     kani::assume(!meta && esc && n >= 4);
-    let Ok(rule) = SectionRule::new(p, None, SectionRuleOutcome::Discard) else { return };
-    let nbuf: [u8; NLEN] = kani::any();
-    let r = rule.matches(&nbuf[..5], None);
+    let Ok(rule) = SectionRule::new(&p[..], None, SectionRuleOutcome::Discard) else { return };
+    let nbuf: [u8; 4] = kani::any();
+    let r = rule.matches(&nbuf[..], None);
     core::mem::forget(rule);
     assert!(!r, "canary: an escaped-exact rule must be able to match");
 }
